@@ -381,7 +381,10 @@ def run_check(prop, tier, plan, seed):
         wall = time.monotonic() - t_start
         ev = plan["evidence"](agg, det, tier, seed, wall, t_main, n_new,
                               [str(p) for p, _, _ in reported], unprocessed)
-        edir = pathlib.Path(os.environ.get("YADSIM_EVIDENCE_DIR", str(VERIF / "evidence")))
+        # evidence under /verif/evidence only ever describes runs against /repo itself
+        foreign = os.path.realpath(os.environ.get("YADSIM_SRC", "/repo/src")) != os.path.realpath("/repo/src")
+        edir = pathlib.Path(os.environ.get("YADSIM_EVIDENCE_DIR",
+                                           str(VERIF / ("replays/evidence-scratch" if foreign else "evidence"))))
         edir.mkdir(parents=True, exist_ok=True)
         (edir / f"{prop}.json").write_text(json.dumps(ev, indent=1, sort_keys=False))
         for ln in lines:
